@@ -194,4 +194,33 @@ ValuesOk(n, xre, xim, Xre, Xim, kX, wre, wim, wk, ck) ==
     /\ \A k \in 0..(n - 1) :
          /\ CAbs(Xre[k + 1] - (CSum([m \in 1..n |-> MulRe(xre[m], xim[m], cre[(((m - 1) * k) % n) + 1], cim[(((m - 1) * k) % n) + 1])]) \div Pow2(ck - kX))) <= tol
          /\ CAbs(Xim[k + 1] - (CSum([m \in 1..n |-> MulIm(xre[m], xim[m], cre[(((m - 1) * k) % n) + 1], cim[(((m - 1) * k) % n) + 1])]) \div Pow2(ck - kX))) <= tol
+(* ---------- multi-dimensional transforms: per-axis twiddle tables ---------- *)
+(* The transform of the unit impulse at position 1 along axis d is w_d[k_d], independent of the other frequency     *)
+(* indices; each w_d must be THE table of its length (TableOk); the transform of a e_p is a w_1[p1 k1] w_2[p2 k2]     *)
+(* w_3[p3 k3], and sparse data give the sum of such terms.  This decides multi-dimensional transform values for axis *)
+(* lengths beyond 4.                                                                                                *)
+AxisTable(n, ax, tre, tim) ==
+  [re |-> [j \in 1..n[ax] |-> tre[COff(n, [d \in CAxes |-> IF d = ax THEN j - 1 ELSE 0])]],
+   im |-> [j \in 1..n[ax] |-> tim[COff(n, [d \in CAxes |-> IF d = ax THEN j - 1 ELSE 0])]]]
+\* the recorded transform of e_(1 along ax) depends on k[ax] only (one unit of rounding)
+AxisOnly(n, ax, tre, tim, tab) ==
+  \A q \in 1..CSize(n) : LET k == CPos(n, q - 1) IN
+     CAbs(tre[q] - tab.re[k[ax] + 1]) <= 1 /\ CAbs(tim[q] - tab.im[k[ax] + 1]) <= 1
+\* fixed-point product of two numbers of modulus <= 2^wk
+FMulRe(ar, ai, br, bi, wk) == MulRe(ar, ai, br, bi) \div Pow2(wk)
+FMulIm(ar, ai, br, bi, wk) == MulIm(ar, ai, br, bi) \div Pow2(wk)
+\* w_1[p1 k1] w_2[p2 k2] w_3[p3 k3] at scale 2^wk
+Kernel3(n, tabs, p, k, wk) ==
+  LET e(d) == ((p[d] * k[d]) % n[d]) + 1
+      r12 == FMulRe(tabs[1].re[e(1)], tabs[1].im[e(1)], tabs[2].re[e(2)], tabs[2].im[e(2)], wk)
+      i12 == FMulIm(tabs[1].re[e(1)], tabs[1].im[e(1)], tabs[2].re[e(2)], tabs[2].im[e(2)], wk)
+  IN  << FMulRe(r12, i12, tabs[3].re[e(3)], tabs[3].im[e(3)], wk), FMulIm(r12, i12, tabs[3].re[e(3)], tabs[3].im[e(3)], wk) >>
+SparseValuesOk(n, tabs, pos, are, aim, Xre, Xim, kX, wk) ==
+  \E l1 \in {CSum([i \in 1..Len(pos) |-> CAbs(are[i]) + CAbs(aim[i])])} :
+  \E tol \in {ShiftUp(6 * l1, kX - wk) + 3} :
+    /\ kX <= wk
+    /\ \A q \in 1..CSize(n) : \E k \in {CPos(n, q - 1)} :
+         \E ker \in {[i \in 1..Len(pos) |-> Kernel3(n, tabs, pos[i], k, wk)]} :
+           /\ CAbs(Xre[q] - (CSum([i \in 1..Len(pos) |-> MulRe(are[i], aim[i], ker[i][1], ker[i][2])]) \div Pow2(wk - kX))) <= tol
+           /\ CAbs(Xim[q] - (CSum([i \in 1..Len(pos) |-> MulIm(are[i], aim[i], ker[i][1], ker[i][2])]) \div Pow2(wk - kX))) <= tol
 =============================================================================
